@@ -202,8 +202,10 @@ def build_class(cs, hook, tx_ifaces, extra_attrs=None):
         ns.update(extra_attrs)
     if cs.mixin:
         mix = type('Mixin' + cs.name, (), {'describe': PlainMixin.describe})
-        return type(cs.name, (mix, base), ns)
-    return type(cs.name, (base,), ns)
+        cs.klass = type(cs.name, (mix, base), ns)
+    else:
+        cs.klass = type(cs.name, (base,), ns)
+    return cs.klass
 
 
 def build_tx_ifaces(cs):
